@@ -65,6 +65,7 @@ class Gen:
         self.budget = budget
         self.ids = itertools.count(1)
         self.names = itertools.count(1)
+        self.faults = faults  # every effect may raise: at most one non-pure child per unspecified-order context
         self.forms = forms  # None = all; else the enabled subset of composite forms (swarm testing)
         self.shapes = set()
         self.vartypes = {}  # (outer, inner) pairs where inner is statement-producing inside an expression slot
@@ -294,7 +295,7 @@ class Gen:
             e.no_write |= acc.writes | acc.reads
             if j > 0:
                 e.no_exits = True
-                if exits:
+                if exits or self.faults:
                     e.pure = True
             nodes[i], infos[i] = self.expr(wants[i], depth, e)
             if j == 0:
@@ -440,6 +441,11 @@ class Gen:
         for _ in range(self.integer(0, 2)):
             excs = self.choice([[], ["XA"], ["XB"], ["XA", "XB"], ["Exception"], ["XC"]])
             var = self.fresh("e") if (self.integer(0, 2) == 0) else None
+            if var and self.faults and self.integer(0, 1):
+                # an except variable named like a live outer variable must not clobber it
+                outer = sorted(x for x in env.vars if x not in env.no_write and x not in env.no_read and not env.in_fn)
+                if outer:
+                    var = self.choice(outer)
             henv = env
             if var:
                 henv = env.child()
@@ -496,13 +502,13 @@ class Gen:
         return ["lfor", var, it, cond, val], info
 
 
-def program(budget=40, depth=4, forms=None):
+def program(budget=40, depth=4, forms=None, faults=False):
     """Strategy: (prog, meta) where prog is a list of top-level forms (the last one gives the result)."""
     from hypothesis import strategies as st
 
     @st.composite
     def build(draw):
-        g = Gen(draw, budget=budget, forms=forms)
+        g = Gen(draw, budget=budget, forms=forms, faults=faults)
         env = Env()
         nforms = draw(st.integers(1, 3))
         prog = []
